@@ -179,7 +179,7 @@ TIES = {
 }
 # which ties a property depends on, and its code-level property file
 TIES_FOR = {"C05": ["list"], "C20": ["list", "page"], "C06": ["set"], "C21": ["codec"], "C15": ["codec"], "C01": ["codec"], "C04": ["codec"],
-            "C12": ["tx"], "C13": ["tx"], "C07": ["zset", "txz"], "C03": ["page"], "C02": ["scan"]}
+            "C12": ["tx", "txz"], "C13": ["tx", "txz"], "C07": ["zset", "txz"], "C03": ["page"], "C02": ["scan"]}
 CODE_PROPS = {"C05": "properties_code/C05_code.v", "C20": "properties_code/C05_code.v", "C06": "properties_code/C06_code.v",
               "C21": "properties_code/C21_code.v", "C15": "properties_code/C15_code.v", "C01": "properties_code/C01_code.v",
               "C04": "properties_code/C04_code.v", "C12": "properties_code/C13_code.v", "C13": "properties_code/C13_code.v",
